@@ -202,6 +202,23 @@ func C12_Run(job string) {
 			errs := run(z.Int().PostTransform(mk("1", 2)).PostTransform(mk("2", 0)))
 			v.Assert(log == "1", "C12:posttransform-not-stopped-by-error")
 			v.Assert(len(errs) == 1 && errs[0].Code == "from_transform", "C12:posttransform-issue-not-reported")
+			// the same on struct and slice schemas
+			var sd c12Dest
+			sd.A, sd.L = x, []int{x}
+			ss := z.Struct(z.Schema{"a": z.Int()}).PostTransform(mk("s", 2))
+			sl := z.Slice(z.Int()).PostTransform(mk("l", 2))
+			var em, el z.ZogIssueMap
+			var dl []int
+			if isV {
+				em = ss.Validate(&sd, z.WithCtxValue("k", k))
+				dl = []int{x}
+				el = sl.Validate(&dl, z.WithCtxValue("k", k))
+			} else {
+				em = ss.Parse(map[string]any{"a": x}, &sd, z.WithCtxValue("k", k))
+				el = sl.Parse([]any{x}, &dl, z.WithCtxValue("k", k))
+			}
+			v.Assert(len(em["custom.path"]) == 1 && em["custom.path"][0].Code == "from_transform", "C12:posttransform-issue-not-reported")
+			v.Assert(len(el["custom.path"]) == 1 && el["custom.path"][0].Code == "from_transform", "C12:posttransform-issue-not-reported")
 		case "struct":
 			var sd c12Dest
 			sd.A, sd.N = x, c12In{x, "s"}
